@@ -4,7 +4,7 @@ From V Require Import Sched.Lts Sched.Reach Sched.InvLock Sched.InvStruct Sched.
 Import ListNotations.
 
 (* Reuse: when the pending loop looks up a request's model and finds a runner, it goes on to needsReload for that
-   runner and no server is started in that step; when needsReload finds the runner loaded, with compatible options,
+   runner and no server is started in that step; when needsReload finds the runner loaded (its load completed), with compatible options,
    it pings it; when the ping succeeds it goes on to useLoadedRunner.  (Any state, any configuration.) *)
 Theorem C11_reuse_lookup :
   forall c s t q x r, getq s q = Some x -> lmu s = None -> lookup (loaded s) (q_model x) = Some r ->
@@ -14,13 +14,13 @@ Print Assumptions C11_reuse_lookup.
 
 Theorem C11_reuse_compatible :
   forall c s t q r x y, getr s r = Some x -> getq s q = Some y -> r_mu x = None ->
-  r_closed x = false -> compat (r_key x) (sp_key (q_spec y)) = true ->
+  r_closed x = false -> r_loading x = false -> compat (r_key x) (sp_key (q_spec y)) = true ->
   run_pc c s t (PNr q r) 0%Z = Some (goto (setr s r (r_set_mu x (Some t))) t (PPing q r), []) /\
   forall s1 x1, getr s1 r = Some x1 ->
     run_pc c s1 t (PPing q r) 0%Z = Some (goto (setr s1 r (r_set_mu x1 None)) t (PUse q r), [EPing r true]).
 Proof.
-  intros c s t q r x y Hr Hq Hm Hc Hk. split.
-  - unfold run_pc, guard. rewrite Hr, Hq, Hm, Hc, Hk. reflexivity.
+  intros c s t q r x y Hr Hq Hm Hc Hl Hk. split.
+  - unfold run_pc, guard, reusable. rewrite Hr, Hq, Hm, Hc, Hl, Hk. reflexivity.
   - intros s1 x1 H1. unfold run_pc. rewrite H1. reflexivity.
 Qed.
 Print Assumptions C11_reuse_compatible.
